@@ -333,7 +333,13 @@ pub fn run_session(seed: u64, opts: &HostileOpts, out: &mut ScnOut, verbose: boo
     }
     let big_claims = rx_alloc >= 100_000 || rng.chance(0.3);
     let me = SideCfg { nonce: if rng.chance(0.3) { 0u32.wrapping_sub(rng.below(200) as u32) } else { rng.u32() }, max_send_rate: *rng.pick(&[1472u32, 100_000, 2_000_000, u32::MAX]), max_receive_rate: u32::MAX, rx_alloc, keepalive: Some(5000) };
-    let peer = SideCfg { nonce: if rng.chance(0.3) { 0xFFFFFu32.wrapping_sub(rng.below(200) as u32) | (rng.u32() << 20) } else { rng.u32() }, max_send_rate: u32::MAX, max_receive_rate: *rng.pick(&[1472u32, 100_000, u32::MAX]), rx_alloc: *rng.pick(&[3000usize, 1_000_000]), keepalive: None };
+    // the ids the victim receives start near the 20-bit packet wrap, or (a quarter of the sessions)
+    // a few frames below the 32-bit frame wrap, which is also a packet wrap
+    let wrap32 = Rng::new(seed ^ 0x3232).chance(0.25);
+    if wrap32 {
+        out.counters.inc("victims_receiving_frame_ids_across_2_32");
+    }
+    let peer = SideCfg { nonce: if wrap32 { 0u32.wrapping_sub(Rng::new(seed ^ 0x3233).range(1, 3000) as u32) } else if rng.chance(0.3) { 0xFFFFFu32.wrapping_sub(rng.below(200) as u32) | (rng.u32() << 20) } else { rng.u32() }, max_send_rate: u32::MAX, max_receive_rate: *rng.pick(&[1472u32, 100_000, u32::MAX]), rx_alloc: *rng.pick(&[3000usize, 1_000_000]), keepalive: None };
     uv::time::set_virtual_ns(Some(0));
     uv::rng::set_seed(Some(mix(seed, 77)));
     let mut now_ns: u64 = 0;
